@@ -113,6 +113,23 @@ pub fn compare(
     al: &crate::runner::Alignment,
     replay: &Value,
 ) -> Verdict {
+    compare_opt(ctx, tree, method, spec, iters, out, log, al, replay, true)
+}
+
+/// as `compare`; with `strategies == false` only the draw sites and distributions are compared
+#[allow(clippy::too_many_arguments)]
+pub fn compare_opt(
+    ctx: &Ctx,
+    tree: &Tree,
+    method: RefMethod,
+    spec: ParamSpec,
+    iters: u64,
+    out: &crate::runner::ImplOut,
+    log: &[crate::explore::Draw],
+    al: &crate::runner::Alignment,
+    replay: &Value,
+    strategies: bool,
+) -> Verdict {
     let mut fail = |class: &str, what: String| {
         ctx.violation(class, &format!("{} [{} {} T={}] on {}", what, method_name(method), spec.to_json(), iters, tree.show()), replay.clone());
     };
@@ -156,7 +173,7 @@ pub fn compare(
             }
         }
     }
-    if differs.is_none() {
+    if differs.is_none() && strategies {
         let want = &reference.snapshots[iters as usize];
         'outer: for pl in 0..2 {
             for (info, probs) in &want[pl] {
